@@ -45,9 +45,9 @@ def genCombinations (k n : Nat) : List (List Nat) := if k = 0 then [] else combo
 def treeBaseSeed (E : Env α) (names : List String) (comb : List Nat) : UInt64 :=
   hashStrings E (comb.map (fun j => names.getD j ""))
 
-/-- insert all rows: `Leaf(row 0)` then `add_row(0, i)` -/
-def buildRows (E : Env α) (c : FCtx α) (rowLimit : Int) (root : Node α) : Node α :=
-  (List.range (c.data.size - 1)).foldl (fun t i => addRow E c rowLimit 4000 0 t (i + 1)) root
+/-- insert all rows: `Leaf(row 0)` then `add_row(0, i)`; `none` = recursion budget exhausted -/
+def buildRows (E : Env α) (c : FCtx α) (rowLimit : Int) (root : Node α) : Option (Node α) :=
+  (List.range (c.data.size - 1)).foldlM (fun t i => addRow E c rowLimit 4000 0 t (i + 1)) root
 
 /-- `Forest.__init__` -/
 def Forest.init (E : Env α) (inp : ForestIn α) : Except String (Forest α) := do
@@ -59,26 +59,33 @@ def Forest.init (E : Env α) (inp : ForestIn α) : Except String (Forest α) := 
   let data : Array (Array α) := inp.raw.map (fun r => (List.range ncols).toArray.map (fun j =>
     match (r[j]?).join with | some v => v | none => nullMaps.getD j (ofInt 0)))
   let ctx : FCtx α := { data, pids := inp.pids, ap := inp.ap, bp := inp.bp, kind := inp.kind }
-  let trees1 := (List.range ncols).map (fun j =>
+  let trees1 ← (List.range ncols).mapM (fun j =>
     let seed := treeBaseSeed E inp.names [j]
     let rowLimit := noisyRowLimit E inp.ap.salt seed data.size inp.bp.rowFraction
     let root := mkLeaf E ctx [j] [] seed [] [snapped0.getD j default] 0
-    pushDown E ctx 4000 (buildRows E ctx rowLimit root))
+    match buildRows E ctx rowLimit root with
+    | some t => pure (pushDown E ctx 4000 t)
+    | none => throw "fuel")
   let snapped := trees1.map (fun t => t.data.snapped.getD 0 default)
   return { ctx, names := inp.names, nullMaps, rootSnapped0 := snapped0, snapped, trees1 }
 
 /-- `Forest.get_tree(combination)` (sub-nodes: the trees of the combination's `(k-1)`-subsets, in
 `generate_combinations` order) -/
-def Forest.tree (E : Env α) (F : Forest α) : Nat → List Nat → Node α
-  | 0, _ => default
+def Forest.tree? (E : Env α) (F : Forest α) : Nat → List Nat → Option (Node α)
+  | 0, _ => none
   | fuel+1, comb =>
     match comb with
-    | [j] => F.trees1.getD j default
+    | [j] => F.trees1[j]?
     | _ =>
       let k := comb.length
-      let subs := (genCombinations (k - 1) k).map (fun sc => some (F.tree E fuel (sc.map (fun i => comb.getD i 0))))
-      let seed := treeBaseSeed E F.names comb
-      let root := mkLeaf E F.ctx comb [] seed subs (comb.map (fun j => F.snapped.getD j default)) 0
-      buildRows E F.ctx 0 root
+      match (genCombinations (k - 1) k).mapM (fun sc => F.tree? E fuel (sc.map (fun i => comb.getD i 0))) with
+      | none => none
+      | some subTrees =>
+        let seed := treeBaseSeed E F.names comb
+        let root := mkLeaf E F.ctx comb [] seed (subTrees.map some) (comb.map (fun j => F.snapped.getD j default)) 0
+        buildRows E F.ctx 0 root
+
+/-- `Forest.get_tree`, with the error branch collapsed to an empty default (callers that must distinguish use `tree?`) -/
+def Forest.tree (E : Env α) (F : Forest α) (fuel : Nat) (comb : List Nat) : Node α := (F.tree? E fuel comb).getD default
 
 end
